@@ -121,7 +121,14 @@ def r4_termination(ck, scopes):
                 nproved += 1
                 ck.ok(rule, inst, detail, where)
             elif fn.id in UNDECIDED_LOOPS:
-                ck.info(rule, inst, "undecided: %s (%s)" % (UNDECIDED_LOOPS[fn.id], detail[:160]))
+                # not measurable by the engine: at least the shape of progress must be there - every path round the loop re-assigns
+                # the remaining input from the result of a sub-parser that was given it
+                v = progress.hands_on_remainder(fn, head, __import__("rqverif.cfg", fromlist=["x"]).loops(fn)[head])
+                ck.require(v is not None, rule, inst + " (structurally)",
+                           "on some path round this loop the remaining input is not replaced by the remainder a sub-parser returned for it: the "
+                           "same input would be parsed again and again", where,
+                           ok_detail="every path round the loop re-assigns `%s` from the result of a call that was given it; that the callee "
+                                     "consumes something is assumed here: %s" % (v, UNDECIDED_LOOPS[fn.id]))
             else:
                 ck.violate(rule, inst, "termination is not shown: %s - on some input the parser could spin forever instead of returning a patch "
                            "or an error" % detail[:400], where)
